@@ -97,6 +97,10 @@ class Universe(object):
         self.comp[cid] = {'aliases': al, 'fpr': str(fp), 'keyid': fp.keyid}
 
     def doc_universe(self, instances):
+        sub = {x: x.rsplit('/', 1)[0] for x in instances if '/' in x}
+        if sub:
+            return {'inst': {x: ([x] if '/' in x else self.inst[x.split('#')[0]]) for x in instances}, 'owner': sub,
+                    'comp': {c: {'aliases': v['aliases'], 'fpr': v['fpr']} for c, v in self.comp.items()}, 'idents': self.idents}
         return {'inst': {x: self.inst[x.split('#')[0]] for x in instances},
                 'comp': {c: {'aliases': v['aliases'], 'fpr': v['fpr']} for c, v in self.comp.items()},
                 'idents': self.idents}
@@ -284,6 +288,44 @@ def run(ctx):
         ctx.case(('rand', tuple(beh)))
     ctx.sample({'random_history_with_forms': [[e['op'], e['x']] for e in rtraces[0]]})
     validate(ctx, U2, rtraces, instances, 'random')
+    # 4. subkey OBJECTS loaded and unloaded on their own (what `with kr.key(msg) as k: kr.unload(k)` does for a message encrypted to a
+    #    subkey): the keyring holds key objects; fingerprints / selection / len follow the objects held
+    subinst = sorted(x for x in U.comp if '/' in x)
+    whole = sorted(U.inst)
+    straces = []
+    for t in range(30 if ctx.quick else 400):
+        held, beh = set(), []
+        for _ in range(ctx.rng.randrange(3, 10)):
+            r = ctx.rng.random()
+            if r < 0.35:
+                x = ctx.rng.choice(whole)
+                beh.append(('load', x))
+                held |= {x} | {c for c in U.inst[x] if '/' in c}
+            elif r < 0.55 and held:
+                x = ctx.rng.choice(sorted(held))
+                beh.append(('unload', x))
+                held -= {x} | ({c for c in U.inst[x] if '/' in c} if '/' not in x else set())
+            elif r < 0.8:
+                x = ctx.rng.choice(subinst)
+                beh.append(('load', x))
+                held.add(x)
+            else:
+                x = ctx.rng.choice(subinst)
+                beh.append(('unload', x))
+                held.discard(x)
+        kr = U.pgpy.PGPKeyring()
+        tr = []
+        for op, x in beh:
+            obj = U.obj[x] if '/' not in x else list(U.obj[x.rsplit('/', 1)[0]].subkeys.values())[int(x.rsplit('/', 1)[1]) - 1]
+            try:
+                (kr.load if op == 'load' else kr.unload)(obj)
+            except Exception as ex:
+                tr.append({'op': op, 'x': x, 'raised': True, 'exc': repr(ex)[:120]})
+                break
+            tr.append({'op': op, 'x': x, 'obs': U.observe(kr)})
+        straces.append(tr)
+        ctx.case(('subobj', tuple(beh)))
+    validate(ctx, U, straces, whole + subinst, 'subkey-objects')
     # ---- binding demonstration: corrupt one recorded field of accepted histories; every copy must be rejected
     if not ctx.violations:
         import copy as _copy
